@@ -314,8 +314,8 @@ class K6Adapter(CaseAdapter):
 class K7Adapter(CaseAdapter):
     module_name = 'k7'
     label = 'K7 (harness/k7*.py)'
-    N = dict(quick={'C08': 250, 'C14': 200, 'C07': 200, 'C18': 48, 'C09': 100, 'C16': 100, 'C19': 120},
-             thorough={'C08': 20000, 'C14': 12000, 'C07': 6000, 'C18': 200, 'C09': 6000, 'C16': 6000, 'C19': 8000})
+    N = dict(quick={'C13': 150, 'C08': 250, 'C14': 200, 'C07': 200, 'C18': 48, 'C09': 100, 'C16': 100, 'C19': 120},
+             thorough={'C13': 3000, 'C08': 20000, 'C14': 12000, 'C07': 6000, 'C18': 200, 'C09': 6000, 'C16': 6000, 'C19': 8000})
     SEARCH = dict(quick=150, thorough=800)
     rule = ('seeded whole backtests on synthetic CSV markets written to a temporary directory (1-4 assets, gaps, missing cells, '
             'assets starting late; weekly/daily/end-of-month/buy-and-hold schedules; long-only and long/short sizing; zero and '
@@ -413,6 +413,10 @@ class C03Adapter(Composite):
     parts = (K3Adapter, K3PAdapter)
 
 
+class C13Adapter(Composite):
+    parts = (K1Adapter, K7Adapter)
+
+
 class C18Adapter(Composite):
     parts = (K7Adapter, K3DetAdapter)
 
@@ -428,7 +432,8 @@ class K5K7Adapter(Composite):
 PROPS = {p: K3Adapter for p in ('C01', 'C02', 'C03', 'C05', 'C15')}
 PROPS['C04'] = C04Adapter
 PROPS['C03'] = C03Adapter
-PROPS.update({p: K1Adapter for p in ('C12', 'C13')})
+PROPS.update({p: K1Adapter for p in ('C12',)})
+PROPS['C13'] = C13Adapter
 PROPS['C06'] = K2Adapter
 PROPS['C16'] = K5K7Adapter
 PROPS['C17'] = K6Adapter
